@@ -1,16 +1,27 @@
 (* Correspondence for C12.  Spec side (code 2) is evaluated on the implementation's output alone:
    invalid chain <-> no results; one result per certificate; root NonRevokable; server URLs are
-   the certificate's own; verdict consistent with the server results (Consistent, Proofs/Revocation.v). *)
+   the certificate's own; verdict consistent with the server results (Consistent, Proofs/Revocation.v); a lone
+   Unknown OCSP entry among several responders only after a decisive Unknown status (class 8). *)
 From NCG Require Export Run.RevSpec.
 Definition case := rcase.
 
-Definition pos_check (standalone : bool) (i : nat) (c : cert) (is_root : bool) (o : pos_out) : Z :=
+(* a single Unknown OCSP entry for a certificate with several responders is only the documented shape when that
+   responder really answered with status Unknown (decisive); after a mere failure the other responders are asked too *)
+Definition lone_unknown_not_decisive (w : world) (st : Z) (c : cert) (r : cres) : bool :=
+  rmethod_eqb (cr_method r) MOCSP && rres_eqb (cr_result r) RUnknown && (1 <? Z.of_nat (length (c_ocsp c))) &&
+  match cr_servers r with
+  | [s] => memZ (sr_url s) (c_ocsp c) && negb (sclass_eqb (sc w st (sr_url s)) CUnknownStatus)
+  | _ => false
+  end.
+
+Definition pos_check (w : world) (st : Z) (standalone : bool) (i : nat) (c : cert) (is_root : bool) (o : pos_out) : Z :=
   let r := fst o in
   if is_root then (if cres_eqb r nonrev then 0 else 3)
   else if negb (forallb (fun s => (sr_url s =? 0) || memZ (sr_url s) (c_ocsp c) || memZ (sr_url s) (c_crl c)) (cr_servers r)) then 4
   else if negb (if standalone then consistent_ocsp_b c r else consistent_b c r) then 5
   else if rres_eqb (cr_result r) ROK && existsb (fun s => rres_eqb (sr_result s) RRevoked) (cr_servers r) then 6
   else if negb (forallb (fun u => memZ u (c_ocsp c) || memZ u (c_crl c)) (snd o)) then 7   (* exchanged with a URL of another certificate *)
+  else if lone_unknown_not_decisive w st c r then 8
   else 0.
 
 Definition check_case (c : rcase) : verdict :=
@@ -21,7 +32,7 @@ Definition check_case (c : rcase) : verdict :=
   | Some outs =>
       if negb valid then (r_id c, 2, 1)                            (* invalid / empty chain produced results *)
       else if negb (Nat.eqb (length outs) (length (r_chain c))) then (r_id c, 2, 2)
-      else let k := first_bad (pos_check (r_entry c =? 1)) 0 (r_chain c) outs in
+      else let k := first_bad (pos_check (case_world c) (r_st c) (r_entry c =? 1)) 0 (r_chain c) outs in
            if negb (k =? 0) then (r_id c, 2, k)
            else if agrees c then (r_id c, 0, 0) else (r_id c, 1, 0)
   end.
